@@ -1213,6 +1213,11 @@ func w1Run(s *simrt.Sim, script any, prop string) {
 	for i := 0; i < n; i++ {
 		<-done
 	}
+	// faults stop here: the settled-state checks below wait fixed simulated times (e.g.
+	// 300 ms for a marker publication to arrive) and must not race with a 1.2 s stall of
+	// the goroutine that delivers it (false alarm C04 subscribed-not-routed, seed 1 run
+	// 15334: the connection's writer was the stalled goroutine)
+	s.StopStalls()
 	s.Pause()
 	settle := time.Duration(sc.Cfg.SettleMs) * time.Millisecond
 	if settle == 0 {
